@@ -152,6 +152,10 @@ You can provide input either as a file (as the first argument) or by piping logs
 			}
 			if len(args) == 1 {
 				inputFile = args[0]
+				if outputFile != "" && sameFile(inputFile, outputFile) {
+					fmt.Fprintln(os.Stderr, "Error: --outputFile names the input file; creating the output would empty the log before it is read.")
+					os.Exit(1)
+				}
 			} else if stdinHasData {
 				useStdin = true
 			} else if !atlasParamsSet {
